@@ -75,6 +75,41 @@ pub fn cli(args: &[String]) -> i32 {
             };
             cmd_replay(path, args.iter().any(|a| a == "--dump"))
         }
+        Some("selftest") => match args.get(1).map(|s| s.as_str()) {
+            Some("determinism") => {
+                // every run twice, in separate processes, at two worker counts; logs must agree
+                let n: u64 = args.get(2).and_then(|s| s.parse().ok()).unwrap_or(300);
+                std::env::set_var("DST_PER_RUN", "1");
+                let mut bad = 0;
+                let mut total = 0;
+                for prop in ALL_PROPS {
+                    let props: Vec<String> = vec![prop.to_string()];
+                    let mut a = batch(prop, base_seed(), n, 16, 600, &props).per_run;
+                    let mut b = batch(prop, base_seed(), n, 3, 600, &props).per_run;
+                    a.sort();
+                    b.sort();
+                    total += a.len();
+                    if a != b {
+                        let diff = a.iter().zip(b.iter()).filter(|(x, y)| x != y).count() + a.len().abs_diff(b.len());
+                        println!("NONDETERMINISM property={} {} of {} runs differ", prop, diff, a.len());
+                        for (x, y) in a.iter().zip(b.iter()).filter(|(x, y)| x != y).take(5) {
+                            println!("  run {}: {:016x}/{:016x} vs {:016x}/{:016x}", x.0, x.1, x.2, y.1, y.2);
+                        }
+                        bad += 1;
+                    }
+                }
+                println!("determinism: {} runs x2 compared, {} properties diverged", total, bad);
+                if bad > 0 {
+                    2
+                } else {
+                    0
+                }
+            }
+            _ => {
+                eprintln!("usage: dst selftest determinism [n]");
+                2
+            }
+        },
         Some("one") => {
             // dst one <prop> <run-index> [--dump] [--inproc]
             let prop = args.get(1).cloned().unwrap_or_default();
@@ -137,6 +172,7 @@ fn cmd_replay(path: &str, dump: bool) -> i32 {
             if let Some(d) = &sum.dump {
                 println!("{}", d);
             }
+            println!("run ended: {} (steps={}, tasks={:?})", sum.end, sum.steps, sum.tasks);
             let hit = sum.violations.iter().find(|v| v.prop == rf.property && v.rule == rf.rule && v.fingerprint == rf.fingerprint);
             match hit {
                 Some(v) => {
